@@ -366,10 +366,18 @@ def run_impl(script, payload, env_extra=None, timeout=1800):
 # ---------------------------------------------------------------- context, verdict, evidence
 
 def load_known():
-    p = os.path.join(VERIF, "known_findings.json")
-    if not os.path.exists(p):
-        return {"known": [], "fixed": []}
-    return json.load(open(p))
+    """known_findings.json plus the per-property fragments known_findings.d/*.json (all committed; read-only)."""
+    out = {"known": [], "fixed": []}
+    paths = [os.path.join(VERIF, "known_findings.json")]
+    d = os.path.join(VERIF, "known_findings.d")
+    if os.path.isdir(d):
+        paths += [os.path.join(d, f) for f in sorted(os.listdir(d)) if f.endswith(".json")]
+    for p in paths:
+        if os.path.exists(p):
+            j = json.load(open(p))
+            out["known"] += j.get("known", [])
+            out["fixed"] += j.get("fixed", [])
+    return out
 
 
 class Ctx:
